@@ -2,6 +2,7 @@
 C07 — helper lemmas for `Props/C07.lean` (model: `Model/C07.lean`).
 -/
 import CobaVerif.Model.C07
+import CobaVerif.Generated.C07Consts
 import Mathlib.Tactic.Linarith
 import Mathlib.Tactic.Ring
 import Mathlib.Tactic.FieldSimp
@@ -1688,5 +1689,46 @@ theorem specInteractionsLW_eq (rnd : Rat → Rat) (txs : List Tx) (h : ((t4sOf t
     specInteractionsLW rnd txs = specInteractions rnd txs := by
   unfold specInteractionsLW specInteractions
   rw [lastWins_of_nodup _ h]
+
+/-! ### phase 4: translator tie — definitions regenerated from the coba source (`Generated/C07Consts.lean`) equal what the model uses -/
+section Phase4
+open Coba.Generated
+
+theorem source_consts_match' :
+    C07.encVersion = 4 ∧ C07.decVersion = C07.encVersion ∧ C07.resVersion = C07.encVersion ∧
+    C07.encTags = [("T0", "experiment"), ("T1", "E"), ("T2", "L"), ("T3", "V"), ("T4", "I")] ∧
+    C07.resTags = C07.encTags.map Prod.snd ∧
+    C07.packedKey = "_packed" ∧ C07.countKey = "_n" ∧ C07.encKeyIsStr = true ∧ C07.encAbsentIsNone = true ∧
+    C07.exemptCols = ["rewards"] ∧ C07.intCols = idCols ∧ C07.idAssigned = idCols ∧
+    C07.paramCols = [Tbl.E, Tbl.L, Tbl.V].map idColName ∧ C07.indexFrom = 1 ∧ 10 ^ C07.precision = 100000 := by
+  decide
+
+theorem encode_uses_source_version' (rnd : Rat → Rat) (fixed : Bool) (txs : List Tx) :
+    encode rnd fixed false txs = Rec.version C07.encVersion :: txs.map (encodeTx rnd fixed) := rfl
+
+theorem readLog_version_gate' (fixed : Bool) (n : Int) (recs : List Rec) (h : n ≠ C07.resVersion) :
+    readLog fixed (Rec.version n :: recs) = .error .stopIteration := by
+  have h' : n ≠ 4 := h
+  simp [readLog, h']
+
+theorem round5_uses_source_precision' (q : Rat) :
+    round5 q = (rhe (fl (q * ((10 ^ C07.precision : Nat) : Rat))) : Rat) / ((10 ^ C07.precision : Nat) : Rat) := by
+  have : (10 ^ C07.precision : Nat) = 100000 := by decide
+  rw [this]; simp [round5]
+
+theorem normCell_uses_source_exempt' (rnd : Rat → Rat) (col : String) (v : Val) :
+    normCell rnd col v = if col ∈ C07.exemptCols then normIn rnd v else normTop rnd v := by
+  have : C07.exemptCols = ["rewards"] := by decide
+  simp [normCell, this]
+
+theorem tupleCols_uses_source_exempt' (cols : List (String × List Val)) :
+    tupleColsPerCell cols = cols.map (fun c => (c.1, if c.1 ∈ C07.exemptCols then c.2 else c.2.map tupTop)) := by
+  have : C07.exemptCols = ["rewards"] := by decide
+  simp [tupleColsPerCell, this]
+
+theorem idCells_uses_source_cols' (e l v : Int) (i : Nat) :
+    (idCells e l v i).map Prod.fst = C07.idAssigned ∧ (idCells e l v (Int.toNat C07.indexFrom)).getLast? = some ("index", .int 1) := by
+  exact ⟨rfl, rfl⟩
+end Phase4
 
 end Coba.C07
